@@ -16,5 +16,5 @@ macro_rules! registry { (kani: [$($k:ident),* $(,)?], native: [$($n:ident),* $(,
 }}
 registry!(
     kani: [and__f83_f81, or__f83_f81, xor__f83_f81, add__f83_f81, sub__f83_f81, cmp__f83_f81, and__f82_f82, or__f82_f82, xor__f82_f82, add__f82_f82, sub__f82_f82, cmp__f82_f82, and__f82_f162, or__f82_f162, xor__f82_f162, add__f82_f162, sub__f82_f162, cmp__f82_f162, and__f162_f83, or__f162_f83, xor__f162_f83, add__f162_f83, sub__f162_f83, cmp__f162_f83, shl__f82, shr__f82, shlin__f82, shrin__f82, rot__f82, cnt__f82, edit__f82, slice__f82, not__f82, shl__f83, shr__f83, shlin__f83, shrin__f83, rot__f83, cnt__f83, edit__f83, slice__f83, not__f83, shl__f162, shr__f162, shlin__f162, shrin__f162, rot__f162, cnt__f162, edit__f162, slice__f162, not__f162],
-    native: [mul__f83_f81, mul__f82_f82, mul__f82_f162, mul__f162_f83, and__f642_f641, or__f642_f641, xor__f642_f641, add__f642_f641, sub__f642_f641, mul__f642_f641, cmp__f642_f641, forms__f83_f81, forms__f642_f641, and__f82_bvd, or__f82_bvd, xor__f82_bvd, add__f82_bvd, sub__f82_bvd, mul__f82_bvd, cmp__f82_bvd, and__bvd_bvd, or__bvd_bvd, xor__bvd_bvd, add__bvd_bvd, sub__bvd_bvd, mul__bvd_bvd, cmp__bvd_bvd, and__bvd_f82, or__bvd_f82, xor__bvd_f82, add__bvd_f82, sub__bvd_f82, mul__bvd_f82, cmp__bvd_f82, and__bvd_f642, or__bvd_f642, xor__bvd_f642, add__bvd_f642, sub__bvd_f642, mul__bvd_f642, cmp__bvd_f642, and__bv_bv, or__bv_bv, xor__bv_bv, add__bv_bv, sub__bv_bv, mul__bv_bv, cmp__bv_bv, shl__f642, shr__f642, shlin__f642, shrin__f642, rot__f642, cnt__f642, edit__f642, slice__f642, not__f642, shl__bvd, shr__bvd, shlin__bvd, shrin__bvd, rot__bvd, cnt__bvd, edit__bvd, slice__bvd, not__bvd, shl__bv, shr__bv, shlin__bv, shrin__bv, rot__bv, cnt__bv, edit__bv, slice__bv, not__bv, div__f82_f82, div__f82_f162, div__f162_f83, div__f82_bvd, div__f642_bvd, div__bvd_bvd, div__bvd_f82, div__bv_bv, div__bv_f82, hash__f82, hash__f162, hash__f642, hash__bvd, hash__bv, int__f82_u8, int__f82_u64, int__f82_u128, int__f83_u32, int__f162_u16, int__f162_usize, int__f642_u128, int__f642_u8, int__bvd_u8, int__bvd_u64, int__bvd_u128, int__bv_u16, int__bv_u128, int__bv_usize, conv__f82_f162, conv__f162_f82, conv__f83_f82, conv__f642_f83, conv__bvd_f82, conv__bvd_f642, conv__bv_f162, conv__bv_f642, conv__f82_bvd, conv__f162_bvd, conv__f642_bvd, conv__bv_bvd, conv__f82_bv, conv__f642_bv, conv__bvd_bv, bytes__f82, bytes__f83, bytes__f162, bytes__f642, bytes__bvd, bytes__bv, fmt__f82, fmt__f162, fmt__f642, fmt__bvd, fmt__bv, parse__f82, parse__f83, parse__f642, parse__bvd, parse__bv, iter__f82, iter__f642, iter__bvd, iter__bv, cap__bvd, cap__bv, splice__f83_f82, splice__f162_f162, splice__f642_bvd, splice__bvd_f83, splice__bvd_bvd, splice__bv_bv, splice__bv_f162, extend__f83, extend__f642, extend__bvd, extend__bv, fixedcap__f82, fixedcap__f83, fixedcap__f162, fixedcap__f642, forms__f82_f162, forms__f162_bvd, forms__f642_bv, forms__bvd_bvd, forms__bvd_f83, forms__bvd_bv, forms__bv_bv, forms__bv_bvd, forms__bv_f82, hist__f83_f82, hist__f162_bvd, hist__f642_f642, hist__bvd_bvd, hist__bvd_f642, hist__bv_bv, hist__bv_bvd, div__uint, hash__bv_modes, int__bit, int__slices, conv__new_into_inner, parse__bv_long, extend__bv_cross]
+    native: [parsek__f82, mul__f83_f81, mul__f82_f82, mul__f82_f162, mul__f162_f83, and__f642_f641, or__f642_f641, xor__f642_f641, add__f642_f641, sub__f642_f641, mul__f642_f641, cmp__f642_f641, forms__f83_f81, forms__f642_f641, and__f82_bvd, or__f82_bvd, xor__f82_bvd, add__f82_bvd, sub__f82_bvd, mul__f82_bvd, cmp__f82_bvd, and__bvd_bvd, or__bvd_bvd, xor__bvd_bvd, add__bvd_bvd, sub__bvd_bvd, mul__bvd_bvd, cmp__bvd_bvd, and__bvd_f82, or__bvd_f82, xor__bvd_f82, add__bvd_f82, sub__bvd_f82, mul__bvd_f82, cmp__bvd_f82, and__bvd_f642, or__bvd_f642, xor__bvd_f642, add__bvd_f642, sub__bvd_f642, mul__bvd_f642, cmp__bvd_f642, and__bv_bv, or__bv_bv, xor__bv_bv, add__bv_bv, sub__bv_bv, mul__bv_bv, cmp__bv_bv, shl__f642, shr__f642, shlin__f642, shrin__f642, rot__f642, cnt__f642, edit__f642, slice__f642, not__f642, shl__bvd, shr__bvd, shlin__bvd, shrin__bvd, rot__bvd, cnt__bvd, edit__bvd, slice__bvd, not__bvd, shl__bv, shr__bv, shlin__bv, shrin__bv, rot__bv, cnt__bv, edit__bv, slice__bv, not__bv, div__f82_f82, div__f82_f162, div__f162_f83, div__f82_bvd, div__f642_bvd, div__bvd_bvd, div__bvd_f82, div__bv_bv, div__bv_f82, hash__f82, hash__f162, hash__f642, hash__bvd, hash__bv, int__f82_u8, int__f82_u64, int__f82_u128, int__f83_u32, int__f162_u16, int__f162_usize, int__f642_u128, int__f642_u8, int__bvd_u8, int__bvd_u64, int__bvd_u128, int__bv_u16, int__bv_u128, int__bv_usize, conv__f82_f162, conv__f162_f82, conv__f83_f82, conv__f642_f83, conv__bvd_f82, conv__bvd_f642, conv__bv_f162, conv__bv_f642, conv__f82_bvd, conv__f162_bvd, conv__f642_bvd, conv__bv_bvd, conv__f82_bv, conv__f642_bv, conv__bvd_bv, bytes__f82, bytes__f83, bytes__f162, bytes__f642, bytes__bvd, bytes__bv, fmt__f82, fmt__f162, fmt__f642, fmt__bvd, fmt__bv, parse__f82, parse__f83, parse__f642, parse__bvd, parse__bv, iter__f82, iter__f642, iter__bvd, iter__bv, cap__bvd, cap__bv, splice__f83_f82, splice__f162_f162, splice__f642_bvd, splice__bvd_f83, splice__bvd_bvd, splice__bv_bv, splice__bv_f162, extend__f83, extend__f642, extend__bvd, extend__bv, fixedcap__f82, fixedcap__f83, fixedcap__f162, fixedcap__f642, forms__f82_f162, forms__f162_bvd, forms__f642_bv, forms__bvd_bvd, forms__bvd_f83, forms__bvd_bv, forms__bv_bv, forms__bv_bvd, forms__bv_f82, hist__f83_f82, hist__f162_bvd, hist__f642_f642, hist__bvd_bvd, hist__bvd_f642, hist__bv_bv, hist__bv_bvd, div__uint, hash__bv_modes, int__bit, int__slices, conv__new_into_inner, parse__bv_long, extend__bv_cross]
 );
